@@ -1,12 +1,183 @@
+//! VMess replays: the wire is re-sealed for real from the model's plaintexts (auth id, header length, header),
+//! body chunks go through the scripted AEAD / SHAKE hooks.
+use aes_gcm::Aes128Gcm;
+use aes_gcm::KeyInit;
+use aes_gcm::aead::Aead;
+use aes_gcm::aead::Payload;
+use octo_squirrel::codec::vmess::aead::AEADBodyCodec;
+use octo_squirrel::protocol::address::Address;
+use octo_squirrel::protocol::vmess::aead::auth_id;
+use octo_squirrel::protocol::vmess::aead::encrypt;
+use octo_squirrel::protocol::vmess::aead::kdf;
+use octo_squirrel::protocol::vmess::header::RequestCommand;
+use octo_squirrel::protocol::vmess::header::RequestHeader;
+use octo_squirrel::protocol::vmess::header::RequestOption;
+use octo_squirrel::protocol::vmess::header::SecurityType;
+use octo_squirrel::protocol::vmess::id;
+use octo_squirrel::protocol::vmess::session::ServerSession;
+use octo_squirrel::verif;
+use octo_squirrel_client::client::verif::vmess::ClientAEADCodec;
+use octo_squirrel_server::server::verif::new_vmess_codec;
 use serde_json::Value;
+use serde_json::json;
+use tokio_util::bytes::Bytes;
 use tokio_util::bytes::BytesMut;
+use tokio_util::codec::Decoder;
+use tokio_util::codec::Encoder;
 
-pub fn server_decode(_spec: &Value, _cfg: &Value, _src: &mut BytesMut) -> Result<(), String> {
-    Err("vmess_server replay not implemented".to_owned())
+use crate::decode::bytes_of;
+
+const UUID: &str = "b831381d-6324-4d53-ad4f-8cda48b30811";
+
+fn list(spec: &Value, name: &str) -> Vec<Option<Vec<u8>>> {
+    spec[name].as_array().map(|a| a.iter().map(|o| if o.is_null() { None } else { Some(bytes_of(o)) }).collect()).unwrap_or_default()
 }
 
-pub fn client_decode(_spec: &Value, _cfg: &Value, _src: &mut BytesMut) -> Result<(), String> {
-    Err("vmess_client replay not implemented".to_owned())
+fn script_body(spec: &Value) {
+    verif::script_opens(Some(list(spec, "opens")));
+    let shake: Vec<u16> = list(spec, "xof").into_iter().map(|x| x.map(|b| u16::from_be_bytes([*b.first().unwrap_or(&0), *b.get(1).unwrap_or(&0)])).unwrap_or(0)).collect();
+    verif::script_shake(Some(shake));
+}
+
+pub fn server_decode(spec: &Value, _cfg: &Value, src: &mut BytesMut) -> Result<(), String> {
+    let config = crate::trojan::server_config("vmess", "pw", "aes-128-gcm", json!([{"name": "u", "password": UUID}]));
+    let mut codec = new_vmess_codec(&config).map_err(|e| e.to_string())?;
+    let key = id::from_password(UUID).map_err(|e| e.to_string())?;
+    let aead_vec = list(spec, "aead_vec");
+    let ecb = list(spec, "ecb");
+    let mut wire = src.to_vec();
+    if let Some(Some(header)) = aead_vec.get(1) {
+        let sealed = encrypt::seal_header(&key, Bytes::from(header.clone())).map_err(|e| e.to_string())?;
+        let consumed = 16 + 18 + 8 + header.len() + 16;
+        let tail = if wire.len() > consumed { wire[consumed..].to_vec() } else { vec![] };
+        wire = sealed;
+        wire.extend_from_slice(&tail);
+    } else if let Some(Some(len_bytes)) = aead_vec.first() {
+        let l = u16::from_be_bytes([*len_bytes.first().unwrap_or(&0), *len_bytes.get(1).unwrap_or(&0)]) as usize;
+        let mut sealed = encrypt::seal_header(&key, Bytes::from(vec![0u8; l])).map_err(|e| e.to_string())?;
+        if wire.len() < sealed.len() {
+            sealed.truncate(wire.len());
+        }
+        wire = sealed;
+    } else if let Some(Some(block)) = ecb.first() {
+        if block.len() >= 8 && wire.len() >= 16 {
+            let mut ts = [0u8; 8];
+            ts.copy_from_slice(&block[..8]);
+            wire[..16].copy_from_slice(&auth_id::create(&key, i64::from_be_bytes(ts)));
+        }
+    }
+    script_body(spec);
+    let mut wire = BytesMut::from(&wire[..]);
+    let r = codec.decode(&mut wire).map(|_| ()).map_err(|e| e.to_string());
+    verif::script_shake(None);
+    r
+}
+
+fn options(chunk: &str, padding: &str) -> Vec<RequestOption> {
+    let mut v = vec![RequestOption::ChunkStream];
+    match chunk {
+        "Shake" => v.push(RequestOption::ChunkMasking),
+        "Auth" => v.push(RequestOption::AuthenticatedLength),
+        _ => {}
+    }
+    if padding == "Shake" {
+        v.push(RequestOption::GlobalPadding);
+    }
+    v
+}
+
+/// AEADBodyCodec::{decode_payload, decode_packet} from the model's decoder state
+pub fn body_decode(spec: &Value, cfg: &Value, src: &mut BytesMut) -> Result<(), String> {
+    let chunk = cfg["chunk"].as_str().unwrap_or("Plain");
+    let padding = cfg["padding"].as_str().unwrap_or("Empty");
+    let udp = cfg["command"].as_str() == Some("UDP");
+    let header = RequestHeader::new(1, if udp { RequestCommand::UDP } else { RequestCommand::TCP }, options(chunk, padding), SecurityType::Aes128Gcm,
+        Address::Socket("1.2.3.4:80".parse().unwrap()), [5u8; 16]);
+    let mut session = ServerSession::new([1u8; 16], [2u8; 16], 7);
+    let mut codec = AEADBodyCodec::new_decoder(&header, &mut session).map_err(|e| e.to_string())?;
+    let state = spec["vars"]["bstate"].as_u64().unwrap_or(0);
+    let pad = spec["vars"]["bpad"].as_u64().unwrap_or(0) as u16;
+    let blen = spec["vars"]["blen"].as_u64().unwrap_or(0);
+    if !udp && state >= 1 {
+        // Padding -> Length(pad)
+        verif::script_shake(Some(vec![pad]));
+        let mut empty = BytesMut::new();
+        let _ = codec.decode_payload(&mut empty, &mut session).map_err(|e| e.to_string())?;
+        if state >= 2 {
+            // Length(pad) -> Body(pad, blen)
+            let mut size = BytesMut::new();
+            match chunk {
+                "Auth" => {
+                    if blen < 16 || blen > 0xffff + 16 {
+                        return Err("unreachable decoder state".to_owned());
+                    }
+                    verif::script_opens(Some(vec![Some(((blen - 16) as u16).to_be_bytes().to_vec())]));
+                    size.extend_from_slice(&[0u8; 18]);
+                }
+                _ => {
+                    if blen > 0xffff {
+                        return Err("unreachable decoder state".to_owned());
+                    }
+                    verif::script_shake(Some(vec![0]));
+                    size.extend_from_slice(&(blen as u16).to_be_bytes());
+                }
+            }
+            let _ = codec.decode_payload(&mut size, &mut session).map_err(|e| e.to_string())?;
+        }
+    }
+    script_body(spec);
+    let r = if udp { codec.decode_packet(src, &mut session).map(|_| ()).map_err(|e| e.to_string()) } else { codec.decode_payload(src, &mut session).map(|_| ()).map_err(|e| e.to_string()) };
+    verif::script_shake(None);
+    r
+}
+
+/// client response header: recover the session keys from the client's own sealed request, then seal the model's
+/// header-length and header plaintexts the way the server does
+pub fn client_decode(spec: &Value, cfg: &Value, src: &mut BytesMut) -> Result<(), String> {
+    let security = if cfg["security"].as_str() == Some("Chacha20Poly1305") { SecurityType::Chacha20Poly1305 } else { SecurityType::Aes128Gcm };
+    let header = RequestHeader::default(RequestCommand::TCP, security, Address::Socket("1.2.3.4:80".parse().unwrap()), UUID).map_err(|e| e.to_string())?;
+    let key = header.id;
+    let mut client = ClientAEADCodec::new(header);
+    let mut request = BytesMut::new();
+    client.encode(BytesMut::from(&b"x"[..]), &mut request).map_err(|e| e.to_string())?;
+    let plain = encrypt::open_header(&key, &mut request).map_err(|e| e.to_string())?.ok_or("request header")?;
+    let mut iv = [0u8; 16];
+    let mut k = [0u8; 16];
+    iv.copy_from_slice(&plain[1..17]);
+    k.copy_from_slice(&plain[17..33]);
+    let session = ServerSession::new(iv, k, plain[33]);
+    let opens = list(spec, "opens");
+    let mut wire = src.to_vec();
+    // opens[0] = header length plaintext (2 bytes), opens[1] = header plaintext
+    if let Some(Some(len_pt)) = opens.first() {
+        let len_key = kdf::kdf16(&session.response_body_key, vec![kdf::SALT_AEAD_RESP_HEADER_LEN_KEY]);
+        let len_iv: [u8; 12] = kdf::kdfn(&session.response_body_iv, vec![kdf::SALT_AEAD_RESP_HEADER_LEN_IV]);
+        let sealed_len = Aes128Gcm::new_from_slice(&len_key).map_err(|e| e.to_string())?.encrypt(&len_iv.into(), Payload { msg: len_pt, aad: &[] }).map_err(|e| e.to_string())?;
+        let mut out = sealed_len;
+        if let Some(Some(hdr_pt)) = opens.get(1) {
+            let hk = kdf::kdf16(&session.response_body_key, vec![kdf::SALT_AEAD_RESP_HEADER_PAYLOAD_KEY]);
+            let hiv: [u8; 12] = kdf::kdfn(&session.response_body_iv, vec![kdf::SALT_AEAD_RESP_HEADER_PAYLOAD_IV]);
+            let mut hdr = hdr_pt.clone();
+            if !hdr.is_empty() && spec["vars"]["resp_hdr_match"].as_bool() != Some(false) {
+                hdr[0] = plain[33];
+            }
+            out.extend_from_slice(&Aes128Gcm::new_from_slice(&hk).map_err(|e| e.to_string())?.encrypt(&hiv.into(), Payload { msg: &hdr, aad: &[] }).map_err(|e| e.to_string())?);
+            let consumed = 18 + hdr_pt.len() + 16;
+            if wire.len() > consumed {
+                out.extend_from_slice(&wire[consumed..]);
+            }
+        } else if wire.len() > 18 {
+            out.extend_from_slice(&wire[18..]);
+        }
+        wire = out;
+    }
+    verif::script_opens(Some(opens.into_iter().skip(2).collect()));
+    let shake: Vec<u16> = list(spec, "xof").into_iter().map(|x| x.map(|b| u16::from_be_bytes([*b.first().unwrap_or(&0), *b.get(1).unwrap_or(&0)])).unwrap_or(0)).collect();
+    verif::script_shake(Some(shake));
+    let mut wire = BytesMut::from(&wire[..]);
+    let r = client.decode(&mut wire).map(|_| ()).map_err(|e| e.to_string());
+    verif::script_shake(None);
+    r
 }
 
 pub fn read_address(src: &mut BytesMut) -> Result<(), String> {
